@@ -645,6 +645,10 @@ class Emit:
                     acc = [x for x in acc if not (x[0] == "cond" and x[1] == "self.cleanup_statements")] + \
                         [("stack", "push"), ("cond", "self.cleanup_statements", True)]
                     continue
+                if txt in ("used.add('cut')", "used |= {'cut'}", "used.update({'cut'})", "used.update(['cut'])") or \
+                        (txt.startswith("used = ") and "'cut'" in txt):
+                    acc = acc + [("keep", "cut")]
+                    continue
                 if txt == "self.cleanup_statements.pop()":
                     acc = [x for x in acc if not (x[0] == "cond" and x[1] == "self.cleanup_statements")] + [("stack", "pop")]
                     continue
@@ -716,6 +720,15 @@ def rule_t3(chk: Check, C: Classes):
                 first = False
             if units != want_units:
                 problems["and"] = f"the conjuncts of an alternative must be joined by exactly one `and`: {cond}"
+            # the cut item must get its variable: the names kept for the action include `cut` whenever the alternative has one
+            # (an item whose name is not kept is emitted as `(True)`, and `if cut:` then never fires)
+            filters = any(x[0] == "cond" and x[1] == "action" and x[2] is True for x in p)
+            if has_cut is True and filters and nitems:
+                first_visit = next(i for i, x in enumerate(p) if x[0] == "call" and x[1] == "visit")
+                if not any(x == ("keep", "cut") for x in p[:first_visit]):
+                    problems["cut-bound"] = ("when the names used by the action are collected, `cut` must be added to them for an alternative "
+                                             "with `~`: otherwise the item is emitted as `(True)` instead of `(cut := True)` and the early exit "
+                                             "`if cut: return None` is dead")
             if has_inv is True and (not cond or cond[0] != "self.call_invalid_rules"):
                 problems["invalid-gate"] = "an alternative that mentions an invalid_ rule must test `self.call_invalid_rules` first"
             if has_inv is False and "self.call_invalid_rules" in cond:
